@@ -190,6 +190,12 @@ func (d *OrderedDaemon) BackgroundWorker(name string, handler WorkerFunc, order 
 	d.lock.Lock()
 	defer d.lock.Unlock()
 
+	// check again under the lock: shutdown sets the flag while holding the lock, so a worker is either registered
+	// before the shutdown takes its snapshot or it is refused.
+	if d.IsStopped() {
+		return ErrDaemonAlreadyStopped
+	}
+
 	exWorker, workerExistsAlready := d.workers[name]
 	if workerExistsAlready {
 		if !d.running.Load() {
@@ -254,6 +260,11 @@ func (d *OrderedDaemon) Start() {
 	d.lock.Lock()
 	defer d.lock.Unlock()
 
+	// check again under the lock (see BackgroundWorker)
+	if d.IsStopped() {
+		return
+	}
+
 	if !d.IsRunning() {
 		d.running.Store(true)
 		for name, worker := range d.workers {
@@ -299,7 +310,11 @@ func (d *OrderedDaemon) shutdown() {
 		d.logger.LogDebugf("Shutting down ...")
 	}
 
+	// set the flag while holding the lock, so that no worker can be added or started concurrently
+	d.lock.Lock()
 	d.stopped.Store(true)
+	d.lock.Unlock()
+
 	d.stoppedCtxCancel()
 	if !d.IsRunning() {
 		return
